@@ -204,3 +204,105 @@ def install_more(w):
 
     H["fakesnow.info_schema.creation_sql"] = _creation_sql("info_schema")
     H["fakesnow.macros.creation_sql"] = _creation_sql("macros")
+
+
+def install_sfc(w):
+    """A-SFC: snowflake.connector.converter.SnowflakeConverter (client-side binding), str % args, re.sub"""
+    import snowflake.connector.converter as conv
+    from pyvc.world import SpecFun
+
+    H = w.handlers
+    A = "A-SFC (SnowflakeConverter.to_snowflake/escape/quote: quote(escape(to_snowflake(v))) is a Snowflake literal denoting v that cannot terminate itself); A-PY str % args"
+    w.classes.add(conv.SnowflakeConverter)
+    w.schemas[conv.SnowflakeConverter] = ClassSchema(conv.SnowflakeConverter, fields={})
+    TOSF = z3.Function("sfc_to_snowflake", V, V)
+    ESC = z3.Function("sfc_escape", V, V)
+    QUO = z3.Function("sfc_quote", V, V)
+    for nm, f in (("to_snowflake", TOSF), ("escape", ESC), ("quote", QUO)):
+        def mk(f_):
+            def h(ex, st, args, kw, node):
+                ex.trusted_used.add(A)
+                return Val(f_(args[1].t), None)
+
+            return h
+
+        H[f"snowflake.connector.converter.SnowflakeConverter.{nm}"] = mk(f)
+
+    def sf_literal(ex, st, args):
+        return Val(QUO(ESC(TOSF(args[0].t))), None)
+
+    w.specfuns["sf_literal"] = SpecFun("sf_literal", sf_literal)
+
+    # `command % params`: the formatted text is a function of the format string and of the argument object's contents
+    PYFMT_SEQ = z3.Function("py_format_seq", S, I, z3.ArraySort(I, V), S)
+    PYFMT_MAP = z3.Function("py_format_map", S, z3.ArraySort(V, B), z3.ArraySort(V, V), S)
+    PYFMT_ONE = z3.Function("py_format_one", S, V, S)
+    w.ghost_sorts.update({"$fmt_n": I, "$fmt_cmd": S, "$fmt_arg": V, "$fmt_out": S})
+
+    def str_mod(ex, st, args, kw, node):
+        ex.trusted_used.add(A)
+        a, b = args
+        fmt = ex.as_str(st, a, node)
+        ty = b.ty.t if isinstance(b.ty, Opt) else b.ty
+        # may raise TypeError / ValueError / KeyError when placeholders and arguments do not fit
+        bad = ex.fresh("format_mismatch", B)
+        ex.raise_if(st, bad, TypeError, node)
+        if isinstance(ty, (TupleT, ListT)):
+            v = ex.seq_of(st, b, node)
+            out = PYFMT_SEQ(fmt, v.n, v.arr)
+        elif isinstance(ty, DictT):
+            oid = V.rid(b.t)
+            out = PYFMT_MAP(fmt, st.arr("$dhas")[oid], st.arr("$dmap")[oid])
+        else:
+            out = PYFMT_ONE(fmt, b.t)
+        st.ghost["$fmt_n"] = ex.gh(st, "$fmt_n") + 1
+        st.ghost["$fmt_cmd"] = fmt
+        st.ghost["$fmt_arg"] = b.t
+        st.ghost["$fmt_out"] = out
+        return Val(mks(out), str)
+
+    H["str.__mod__"] = str_mod
+
+    def sf(name):
+        def deco(f):
+            w.specfuns[name] = SpecFun(name, f)
+            return f
+
+        return deco
+
+    @sf("fmt_count")
+    def _fmt_count(ex, st, args):
+        return Val(mki(ex.gh(st, "$fmt_n")), int)
+
+    @sf("fmt_cmd")
+    def _fmt_cmd(ex, st, args):
+        return Val(mks(ex.gh(st, "$fmt_cmd")), str)
+
+    @sf("fmt_out")
+    def _fmt_out(ex, st, args):
+        return Val(mks(ex.gh(st, "$fmt_out")), str)
+
+    @sf("fmt_arg")
+    def _fmt_arg(ex, st, args):
+        return Val(ex.gh(st, "$fmt_arg"), None)
+
+    @sf("pyformat_seq")
+    def _pyformat_seq(ex, st, args):
+        v = ex.seq_of(st, args[1])
+        return Val(mks(PYFMT_SEQ(V.sval(args[0].t), v.n, v.arr)), str)
+
+    @sf("pyformat_map")
+    def _pyformat_map(ex, st, args):
+        oid = V.rid(args[1].t)
+        return Val(mks(PYFMT_MAP(V.sval(args[0].t), st.arr("$dhas")[oid], st.arr("$dmap")[oid])), str)
+
+    @sf("dict_has")
+    def _dict_has(ex, st, args):
+        return Val(mkb(st.arr("$dhas")[V.rid(args[0].t)][args[1].t]), bool)
+
+    # re.sub(pattern, repl, string, flags=...): some string (A-PY; the textual claims about it are decided by the bounded tier)
+    def re_sub(ex, st, args, kw, node):
+        ex.trusted_used.add("A-PY re.sub returns a str and has no other effect (its text is not interpreted deductively)")
+        return Val(mks(ex.fresh("re_sub", S)), str)
+
+    H["re.sub"] = re_sub
